@@ -71,11 +71,6 @@ fn real_state(i: usize) -> TlsState {
     ][i % 25]
 }
 
-fn state_index(s: TlsState) -> usize {
-    let n = format!("{:?}", s);
-    STATES.iter().position(|x| *x == n).unwrap_or(24)
-}
-
 fn st(name: &str) -> usize {
     STATES.iter().position(|x| *x == name).expect("state name")
 }
@@ -380,7 +375,8 @@ pub fn generate(rng: &mut Rng, _prop: Prop) -> Scenario {
 pub fn execute(scn: &Scenario, ctx: &mut Ctx) {
     let edges = grammar();
     let knob = scn.knob().cloned().unwrap_or_else(|| Item::new("knob"));
-    let mut state = (knob.u("start") as usize) % 25;
+    let state = (knob.u("start") as usize) % 25;
+    let mut track = Track { real: real_state(state), model: state, diverged: false };
     let integrated = knob.u("integrated") == 1;
     let onerr_invalid = knob.u("onerr") == 1;
     if state != 0 {
@@ -442,7 +438,7 @@ pub fn execute(scn: &Scenario, ctx: &mut Ctx) {
                 let r = ctx.call("TlsRecordsParser::parse_record", w.len(), 11 << 20, || parser.parse_record(raw));
                 match r {
                     Some(Ok((_, msgs))) if last && msgs.len() == 1 && val::same(&val::msg_to_item(&msgs[0]), m) => {
-                        do_step(ctx, &edges, &mut state, &msgs[0], to_server, token, onerr_invalid, &mut steps);
+                        do_step(ctx, &edges, &mut track, &msgs[0], to_server, token, onerr_invalid, &mut steps);
                         stepped = true;
                     }
                     Some(Err(tls_parser::Err::Incomplete(_))) if !last => {}
@@ -458,8 +454,9 @@ pub fn execute(scn: &Scenario, ctx: &mut Ctx) {
             }
         }
         if !stepped {
-            match val::build_message(m) {
-                Some(b) => do_step(ctx, &edges, &mut state, &b, to_server, token, onerr_invalid, &mut steps),
+            let bb = val::build_bytes(m);
+            match val::build_message(m, &bb) {
+                Some(b) => do_step(ctx, &edges, &mut track, &b, to_server, token, onerr_invalid, &mut steps),
                 None => continue,
             }
         }
@@ -469,49 +466,80 @@ pub fn execute(scn: &Scenario, ctx: &mut Ctx) {
     }
 }
 
+/// One step of the monitor. The comparison is at the level the property is stated: which
+/// (state, direction, message) steps are ACCEPTED and which are rejected with InvalidTransition,
+/// plus the states the statement names (Invalid and SessionEncrypted absorbing, Finished -> Invalid,
+/// fatal alert -> Finished, warning alert / HelloRequest leave the state unchanged). The identity of
+/// the other intermediate states is not compared: the real state value and the acceptor's state are
+/// tracked side by side, so a wrong landing state shows up as soon as its future differs.
 #[allow(clippy::too_many_arguments)]
-fn do_step(ctx: &mut Ctx, edges: &[(usize, Dir, usize, usize)], state: &mut usize, msg: &TlsMessage, to_server: bool, token: usize, onerr_invalid: bool, steps: &mut u32) {
-    let before = *state;
-    let got = match ctx.call("tls_state_transition", 0, 0, || tls_state_transition(real_state(before), msg, to_server)) {
-        Some(g) => g,
-        None => return,
-    };
-    let want = accept(edges, before, token, to_server);
-    let got_idx: Option<usize> = match &got {
-        Ok(s) => Some(state_index(*s)),
-        Err(_) => None,
-    };
-    let cell = ((before * 2 + to_server as usize) * 23 + token) as u32;
-    ctx.cell("transition", cell);
-    ctx.log(8, cell as u64, got_idx.map(|x| x as u64 + 1).unwrap_or(0));
-    ctx.trace(8, cell as u64 * 32 + got_idx.map(|x| x as u64 + 1).unwrap_or(0), 0);
-    *steps += 1;
-    let bad_err = matches!(&got, Err(e) if *e != StateChangeError::InvalidTransition);
-    if got_idx != want || bad_err {
-        let show = |x: Option<usize>| x.map(|i| format!("Ok({})", STATES[i])).unwrap_or_else(|| "Err(InvalidTransition)".into());
-        ctx.violate(Prop::C08, format!("flow/{}/{}/{}", STATES[before], if to_server { "to_server" } else { "to_client" }, TOKENS[token]), || {
-            format!(
-                "state {} + {} {}: tls_state_transition answered {}{}, the documented flows say {}",
-                STATES[before],
-                TOKENS[token],
-                if to_server { "from the client" } else { "from the server" },
-                show(got_idx),
-                if bad_err { " (wrong error value)" } else { "" },
-                show(want)
-            )
-        });
+fn do_step(ctx: &mut Ctx, edges: &[(usize, Dir, usize, usize)], st: &mut Track, msg: &TlsMessage, to_server: bool, token: usize, onerr_invalid: bool, steps: &mut u32) {
+    if st.diverged {
+        return;
     }
-    // the monitor's policy after a rejected message
-    *state = match got_idx {
-        Some(s) => s,
+    let real_before = st.real;
+    let model_before = st.model;
+    let got = match ctx.call("tls_state_transition", 0, 0, || tls_state_transition(real_before, msg, to_server)) {
+        Some(g) => g,
         None => {
-            if onerr_invalid {
-                24
-            } else {
-                before
-            }
+            st.diverged = true;
+            return;
         }
     };
+    let want = accept(edges, model_before, token, to_server);
+    let cell = ((model_before * 2 + to_server as usize) * 23 + token) as u32;
+    ctx.cell("transition", cell);
+    ctx.log(8, cell as u64, got.is_ok() as u64);
+    ctx.trace(8, cell as u64 * 2 + got.is_ok() as u64, 0);
+    *steps += 1;
+    let sig = format!("flow/{}/{}/{}", STATES[model_before], if to_server { "to_server" } else { "to_client" }, TOKENS[token]);
+    let who = if to_server { "from the client" } else { "from the server" };
+    match (&got, want) {
+        (Ok(s2), Some(m2)) => {
+            // named-state clauses of the statement
+            let named = ["Invalid", "SessionEncrypted", "Finished"];
+            let mname = STATES[m2];
+            let t = TOKENS[token];
+            let must_stay = matches!(STATES[model_before], "Invalid" | "SessionEncrypted") || ((t == "alert(warning)" || t == "hello_request") && STATES[model_before] != "Finished");
+            if named.contains(&mname) && *s2 != real_state(m2) {
+                ctx.violate(Prop::C08, sig, || format!("state {} + {} {}: accepted into {:?}, the statement requires {}", STATES[model_before], t, who, s2, mname));
+                st.diverged = true;
+                return;
+            }
+            if must_stay && *s2 != real_before {
+                ctx.violate(Prop::C08, sig, || format!("state {} + {} {}: moved from {:?} to {:?}, the statement requires the state to stay unchanged", STATES[model_before], t, who, real_before, s2));
+                st.diverged = true;
+                return;
+            }
+            st.real = *s2;
+            st.model = m2;
+        }
+        (Err(e), None) => {
+            if *e != StateChangeError::InvalidTransition {
+                ctx.violate(Prop::C08, sig, || format!("state {} + {} {}: rejected with {:?} instead of InvalidTransition", STATES[model_before], TOKENS[token], who, e));
+            }
+            // the monitor's policy after a rejected message
+            if onerr_invalid {
+                st.real = TlsState::Invalid;
+                st.model = 24;
+            }
+        }
+        (Ok(s2), None) => {
+            ctx.violate(Prop::C08, sig, || format!("state {} + {} {}: tls_state_transition accepted (-> {:?}), the documented flows reject this step", STATES[model_before], TOKENS[token], who, s2));
+            st.diverged = true;
+        }
+        (Err(e), Some(m2)) => {
+            ctx.violate(Prop::C08, sig, || format!("state {} + {} {}: tls_state_transition rejected ({:?}), the documented flows accept this step (-> {})", STATES[model_before], TOKENS[token], who, e, STATES[m2]));
+            st.diverged = true;
+        }
+    }
+}
+
+/// the real state value and the acceptor's state, tracked side by side
+pub struct Track {
+    real: TlsState,
+    model: usize,
+    diverged: bool,
 }
 
 pub fn cell_name(id: u32) -> String {
